@@ -926,6 +926,7 @@ func Run(ctx *core.Ctx) {
 	go func() {
 		defer rwg.Done()
 		dualSubscription(ctx, bin)
+		enterExitProbe(ctx, bin)
 	}()
 	defer rwg.Wait()
 	for i, c := range cfgs {
